@@ -41,7 +41,7 @@ var NotApplicable = []NA{
 	
 	{"C14", "a grid of (server parameters x offers) through a pure negotiator; the only history in it (reset) is covered by C18 (DESIGN.md §5)."},
 	{"C15", "'for arbitrary bytes never panics/hangs' explored by coverage-guided mutation is fuzzing of pure decoders, not simulation; panics or frozen step counters met inside claimed properties' runs are still reported there (DESIGN.md §5)."},
-	{"C17", notYet}, {"C19", notYet}, {"C20", notYet},
+	{"C19", notYet}, {"C20", notYet},
 }
 
 var Real = []string{
@@ -117,6 +117,12 @@ var All = []*Spec{
 		LevelText: "fault enumeration: per sampled workload every cut point is executed. Oracle: units wholly before the cut are delivered exactly; no API reports success for the cut unit; a cut payload or a stream ending inside a message never yields io.EOF; control handlers never read a clean EOF before Header.Length bytes; Discard of a cut message fails; no reply is produced from a cut control frame.",
 		LevelNote: "a cut inside a header while no message is open only has to be an error (io.EOF included); ws.ReadFrame only has to return an error; which error is not checked.",
 		DesignRef: "§4 C16", Technique: "deterministic simulation: exhaustive cut-point enumeration per seeded workload"},
+	{ID: "C17", Engine: "wire", Level: "exploration", Quick: 6000, Thorough: 500000,
+		Rule: "each run is a sequence of 2-6 operations drawn from: a dialer/upgrader round trip through every library-owned selection path (Upgrader Protocol / Extension / Negotiate incl. wsflate, HTTPUpgrader, Dialer Protocols/Extensions, answers whose parameters differ from the offer), ReadMessage and ReadData over generated streams (pings recycle pooled byte slices), HandleClose, the copying mask helpers (also on frames whose header is already masked), and client-side WriteMessage / WriteThrough / CipherWriter / Writer.Write with payloads across the pool classes up to >65536 and an optionally failing destination; what each operation returns is retained uncopied and re-checked against model-derived values after every later operation; the sim pool recycles immediately (lifo; tape and fresh for contrast) and poisons on put; non-trivial = every run; distinct = trace digests",
+		Stub: stubWire, Assume: assumeCommon,
+		LevelText: "seeded exploration of operation sequences with maximal aliasing pressure from the simulated pool: results must keep their model-derived value for the rest of the run; caller slices are bit-identical after non-mutating calls, also when the destination write fails; bytes handed to the destination and returned frames do not change when the caller scribbles on its slice; pool canaries intact.",
+		LevelNote: "results of user-owned callbacks (ProtocolCustom, ExtensionCustom, a Negotiate callback returning its argument) and ParseCloseFrameDataUnsafe are the caller's responsibility and are not generated.",
+		DesignRef: "§4 C17", Technique: "deterministic simulation: seeded operation sequences over a poison-on-put LIFO pool, retained results re-verified after every step"},
 	{ID: "C18", Engine: "wire", Level: "exploration", Quick: 24000, Thorough: 2400000,
 		Rule: "each run draws an object class (wsutil.Writer via Reset / ResetOp / PutWriter+GetWriter, wsflate.Writer, wsflate.Reader, CipherReader/Writer, UTF8Reader, wsflate.Extension, wsutil.Reader across messages), a first life H1 (any history incl. an injected failed destination write, growth, DisableFlush, extensions, other side, unflushed partial message, truncated/corrupt compressed input, mid-sequence or rejected UTF-8, accepted offer), the reset, and a second life H2; non-trivial = every run (two lives); distinct = trace digests",
 		Stub: stubWire, Assume: assumeCommon,
